@@ -376,13 +376,36 @@ func checkC04(p *Program, r *Report) {
 			}
 			// the hardened test: i ≥ 2^31 (possibly via a bool variable)
 			hb, ok := iff.Cond.(*ssa.BinOp)
-			if !ok || hb.Op != token.GEQ {
+			if !ok {
 				continue
 			}
-			if k, ok := constInt(hb.Y); !ok || k != 1<<31 {
-				continue
+			isHardTest := false
+			switch hb.Op {
+			case token.GEQ: // i >= 2^31
+				if k, ok := constInt(hb.Y); ok && k == 1<<31 {
+					_, isHardTest = hb.X.(*ssa.Parameter)
+				}
+			case token.GTR: // i > 2^31 − 1
+				if k, ok := constInt(hb.Y); ok && k == 1<<31-1 {
+					_, isHardTest = hb.X.(*ssa.Parameter)
+				}
+			case token.NEQ: // i>>31 != 0, i&2^31 != 0
+				if k, ok := constInt(hb.Y); ok && k == 0 {
+					if sh, ok := hb.X.(*ssa.BinOp); ok {
+						if sh.Op == token.SHR {
+							if k2, ok := constInt(sh.Y); ok && k2 == 31 {
+								_, isHardTest = sh.X.(*ssa.Parameter)
+							}
+						}
+						if sh.Op == token.AND {
+							if k2, ok := constInt(sh.Y); ok && k2 == 1<<31 {
+								_, isHardTest = sh.X.(*ssa.Parameter)
+							}
+						}
+					}
+				}
 			}
-			if _, isParam := hb.X.(*ssa.Parameter); !isParam {
+			if !isHardTest {
 				continue
 			}
 			// b is reached only when the key is public
